@@ -1,4 +1,6 @@
 """C12 — escaping tables and scanner ordering (table and ordering clauses only)."""
+import re
+
 import tables
 from astq import find_nodes
 from mirq import callee, origin_mentions_call, strip_refs
@@ -87,6 +89,60 @@ def run(ctx, rep):
     rep.floor("R12.2", 1)
     # ---- R12.3 ordering in strip / escape (MIR)
     order_rules(ctx, rep)
+    unit_rule(ctx, rep)
+
+
+BYTE_OFFSETS = r"core::str::<impl str>::(find|rfind|len|floor_char_boundary|ceil_char_boundary)$|alloc::string::String::len$|<impl char>::len_utf8$|CharIndices"
+CHAR_COUNTS = r"Iterator::(count|position|rposition)$|Enumerate"
+CHAR_CONSUMERS = r"Iterator::(skip|take|nth|step_by|advance_by)$"
+BYTE_CONSUMERS = r"core::str::<impl str>::(split_at|split_at_checked|get|get_unchecked|is_char_boundary)$|core::str::traits::<impl core::ops::Index<I> for str>::index$|alloc::string::String::(truncate|split_off|insert|insert_str|remove|drain|replace_range)$"
+
+
+def unit_rule(ctx, rep):
+    """R12.4 byte offsets and character counts are different units: in the text-transforming functions a value that derives
+    from a byte offset (str::find / len / char_indices ...) must not be used as a number of characters (skip / take / nth on a
+    character iterator), and a character count (count / position / enumerate on a character iterator) must not be used as a byte
+    position (slicing, split_at, get).  The two agree for ASCII only - the inputs the examples use."""
+    n_sites = 0
+    for name in sorted(ctx.mir.bodies):
+        if not (name.startswith("insim_core::string::escaping::") or name.startswith("insim_core::string::colours::")) or name.endswith("#promoted"):
+            continue
+        b = ctx.mir.body(name)
+        if b is None:
+            continue
+        ordn = {}
+
+        def ordinal(t):
+            k = callee(t)[0].split("::")[-1]
+            ordn[k] = ordn.get(k, 0) + 1
+            return ordn[k] - 1
+        for bb, t in b.calls_to(CHAR_CONSUMERS):
+            ga = " ".join(str(x) for x in (callee(t)[2] or []))
+            if "Chars" not in ga or len(t["args"]) < 2:
+                continue
+            n_sites += 1
+            bb = ordinal(t)
+            o = b.origin(t["args"][1])
+            src = [c for c in b.may_calls(o) if re.search(BYTE_OFFSETS, c[1] or "") or re.search(BYTE_OFFSETS, c[2] or "")]
+            rep.check("R12.4", "%s:%s:%d" % (name.split("::")[-1], callee(t)[0].split("::")[-1], bb), not src,
+                      "%s uses a byte offset (%s) as a number of characters in %s: they differ as soon as the text before it is not ASCII"
+                      % (name, ", ".join(sorted({(c[1] or "").split("::")[-1] for c in src})), callee(t)[0].split("::")[-1]), b.loc(t["line"]), nontrivial=False)
+        for bb, t in b.calls_to(BYTE_CONSUMERS):
+            if len(t["args"]) < 2:
+                continue
+            n_sites += 1
+            bb = ordinal(t)
+            o = b.origin(t["args"][1])
+            src = []
+            for c in b.may_calls(o):
+                if re.search(CHAR_COUNTS, c[1] or "") or re.search(CHAR_COUNTS, c[2] or ""):
+                    g = " ".join(str(x) for x in (c[5] if len(c) > 5 and c[5] else []))
+                    if "Chars" in g and "CharIndices" not in g:
+                        src.append(c)
+            rep.check("R12.4", "%s:%s:%d" % (name.split("::")[-1], callee(t)[0].split("::")[-1], bb), not src,
+                      "%s uses a character count (%s) as a byte position in %s" % (name, ", ".join(sorted({(c[1] or "").split("::")[-1] for c in src})), callee(t)[0].split("::")[-1]),
+                      b.loc(t["line"]), nontrivial=False)
+    rep.check("R12.4", "sites", True, "", None, nontrivial=False, sample={"unit_sensitive_call_sites": n_sites})
 
 
 def calls_with(body, defpat, argpat):
